@@ -7,6 +7,7 @@ import (
 
 	meshconfig "istio.io/api/mesh/v1alpha1"
 	networking "istio.io/api/networking/v1alpha3"
+	security "istio.io/api/security/v1beta1"
 	"istio.io/istio/pilot/pkg/model"
 	registryprovider "istio.io/istio/pilot/pkg/serviceregistry/provider"
 	"istio.io/istio/pkg/config"
@@ -261,6 +262,79 @@ func moreCases() []*caseT {
 			}(),
 			svc("ns2", "h2", h2, "10.20.2"),
 			svc("ns3", "h2", h2, "10.20.3"),
+		}
+	})
+
+	// ---------------------------------------------------------------- history: an object deleted after the first push
+
+	// Four EnvoyFilters of one namespace, priority and age insert a filter at the same place and merge the same
+	// cluster field; one of them is deleted after the first push context, the next one is derived incrementally.
+	efIns := func(ns, name string, sel map[string]string) config.Config {
+		return envoyFilter(ns, name, sel, 0,
+			efPatch(networking.EnvoyFilter_HTTP_FILTER, matchHTTPFilter(networking.EnvoyFilter_ANY, "envoy.filters.http.router"), networking.EnvoyFilter_Patch_INSERT_BEFORE, luaFilter("lua-"+ns+"-"+name, "-- "+name)),
+			efPatch(networking.EnvoyFilter_CLUSTER, matchCluster(networking.EnvoyFilter_ANY, h1), networking.EnvoyFilter_Patch_MERGE, map[string]any{"alt_stat_name": ns + "-" + name}),
+		)
+	}
+	add("incremental-delete", "envoyfilters-one-namespace", func() (cfgs, cfgs) {
+		base := cfgs{selfSE(), gw1(), svc("ns1", "h1", h1, "10.10.1"), vs("ns1", "www", []string{"www.example.com"}, gw1Ref, httpRoute("r", nil, dst(h1, 80, "", 0)))}
+		return base, cfgs{
+			efIns("ns1", "ef-c", nil),
+			efIns("ns1", "ef-a", nil),
+			efIns("ns1", "ef-d-deleted", nil),
+			efIns("ns1", "ef-b", kv("app", "a")),
+			efIns("ns1", "ef-e", nil),
+		}
+	}).Churn = []string{"EnvoyFilter/ns1/ef-d-deleted"}
+	add("incremental-delete", "envoyfilters-root-namespace", func() (cfgs, cfgs) {
+		base := cfgs{selfSE(), gw1(), svc("ns1", "h1", h1, "10.10.1"), vs("ns1", "www", []string{"www.example.com"}, gw1Ref, httpRoute("r", nil, dst(h1, 80, "", 0)))}
+		return base, cfgs{
+			efIns("istio-system", "root-c", nil),
+			efIns("istio-system", "root-a-deleted", nil),
+			efIns("istio-system", "root-b", nil),
+			efIns("ns1", "ns-a", nil),
+			efIns("istio-system", "root-d", kv("istio", "ingressgateway")),
+		}
+	}).Churn = []string{"EnvoyFilter/istio-system/root-a-deleted"}
+	// The same history for kinds with merge / precedence rules: DestinationRules of one host, PeerAuthentications.
+	add("incremental-delete", "destinationrules-and-peerauthentications", func() (cfgs, cfgs) {
+		base := cfgs{selfSE(), svc("ns1", "h1", h1, "10.10.1")}
+		return base, cfgs{
+			dr("ns1", "dr-c", h1, tpConn(3), []*networking.Subset{subset("v3", kv("version", "v3"), nil)}),
+			dr("ns1", "dr-a-deleted", h1, tpConn(1), []*networking.Subset{subset("v1", kv("version", "v1"), nil)}),
+			dr("ns1", "dr-b", h1, tpConn(2), []*networking.Subset{subset("v2", kv("version", "v2"), nil), subset("v3", kv("version", "v3", "x", "y"), nil)}),
+			pa("ns1", "pa-a-deleted", kv("app", "a"), 1),
+			pa("ns1", "pa-b", kv("app", "a"), 3, 8080, 2),
+		}
+	}).Churn = []string{"DestinationRule/ns1/dr-a-deleted", "PeerAuthentication/ns1/pa-a-deleted"}
+
+	// ---------------------------------------------------------------- EnvoyFilter MERGE on filter configs that contain proto maps
+
+	// jwt_authn (providers / requirement_map: one entry per issuer) and RBAC (policies: one entry per rule) are
+	// re-packed by the MERGE operation: the bytes of the typed_config must not depend on map iteration order.
+	add("envoyfilter-merge-map-config", "jwt-and-rbac", func() (cfgs, cfgs) {
+		base := cfgs{selfSE(), gw1(), svc("ns1", "h1", h1, "10.10.1"), vs("ns1", "www", []string{"www.example.com"}, gw1Ref, httpRoute("r", nil, dst(h1, 80, "", 0)))}
+		merge := func(ns, name, filter, typ string, fields map[string]any) config.Config {
+			tc := map[string]any{"@type": "type.googleapis.com/" + typ}
+			for k, v := range fields {
+				tc[k] = v
+			}
+			return envoyFilter(ns, name, nil, 0, efPatch(networking.EnvoyFilter_HTTP_FILTER, matchHTTPFilter(networking.EnvoyFilter_ANY, filter),
+				networking.EnvoyFilter_Patch_MERGE, map[string]any{"name": filter, "typed_config": tc}))
+		}
+		var rules []*security.JWTRule
+		for _, iss := range []string{"issuer-d", "issuer-a", "issuer-e", "issuer-c", "issuer-b"} {
+			rules = append(rules, &security.JWTRule{Issuer: iss, Jwks: jwks})
+		}
+		return base, cfgs{
+			requestAuthn("istio-system", "jwt", nil, rules...),
+			merge("istio-system", "merge-jwt", "envoy.filters.http.jwt_authn", "envoy.extensions.filters.http.jwt_authn.v3.JwtAuthentication", map[string]any{"bypass_cors_preflight": true}),
+			authz("istio-system", "allow", nil, security.AuthorizationPolicy_ALLOW,
+				rule([]*security.Rule_From{fromNamespaces("ns2")}, []*security.Rule_To{toOp([]string{"GET"}, nil, nil)}),
+				rule([]*security.Rule_From{fromNamespaces("ns3")}, []*security.Rule_To{toOp([]string{"POST"}, nil, nil)}),
+				rule([]*security.Rule_From{fromNamespaces("ns4")}, nil),
+				rule(nil, []*security.Rule_To{toOp(nil, []string{"/public"}, nil)})),
+			merge("istio-system", "merge-rbac", "envoy.filters.http.rbac", "envoy.extensions.filters.http.rbac.v3.RBAC", map[string]any{"shadow_rules_stat_prefix": "merged_"}),
+			authz("ns1", "allow-ns1", kv("app", "a"), security.AuthorizationPolicy_ALLOW, rule([]*security.Rule_From{fromNamespaces("ns5")}, nil)),
 		}
 	})
 
